@@ -20,6 +20,8 @@ GET_FOR = "automerge::automerge::Automerge::get_for"
 
 def run(ctx):
     ctx.rule("W1", "every successor-walking visibility predicate tests the successor's increment value (an increment does not hide a counter)")
+    ctx.rule("W4", "OpSet::add_succ_with_undo: the flag that stops further exposure is set at the first surviving value of the register whether or not a deletion was seen above it (only the highest surviving value can become the winner); the exposing store is behind that flag == false")
+    ctx.rule("W5", "InsertQuery::resolve: the scan position used for an append is advanced on every iteration of the scan, also when an increment op is skipped")
     ctx.rule("W2", "Automerge::get_for: the value returned for a key / index is the last of the found ops (next_back / last), never first / next / nth")
     f = C01.check_order(ctx)
     C07.check_succ_inc(ctx, f)
@@ -65,6 +67,105 @@ def run(ctx):
         ok = name in ("next_back", "last", "pop", "max")
         ctx.ob("W2", k, ok, t["sp"], "the last (greatest id) of the found ops" if ok else
                "get_for returns the %s of the ops found for the key / element: with conflicting values the reader sees a loser, not the greatest (counter, actor) id" % name)
+    check_expose_once(ctx, f)
+    check_append_position(ctx, f)
     ctx.level = "proof"
     ctx.decides = ("visibility predicates distinguish increments from overwrites; get_for returns the last (greatest-id) of the ops found for a key or element; OpId order is (counter, actor index) over a sorted actor table (C01's rules re-run).")
     ctx.not_decided = "equality of the visible state with the reference reading: RGA placement, counter arithmetic, marks, agreement of the top / visible / text indexes after arbitrary histories (runtime values)."
+
+
+def check_expose_once(ctx, f):
+    AS = "automerge::op_set2::op_set::OpSet::add_succ_with_undo"
+    b = ctx.body(AS)
+    ctx.analysed_fns.add(AS)
+    # the exposing store: top.splice(pos, 1, [true])
+    sites = []
+    for bi, t in b.calls():
+        if (norm_fn(t.get("fn")) or "").split("::")[-1] == "splice" and t.get("args"):
+            o = b.operand_origin(t["args"][0])
+            if o and ".top" in o[1]:
+                pv = b.provenance(t["args"][3], through_calls=False) if len(t["args"]) > 3 else None
+                if pv and ("bool", "1") in {(ty, v) for ty, v in pv.consts}:
+                    sites.append((bi, t))
+    ctx.floor("exposing stores (top := true) in add_succ_with_undo", len(sites), 1)
+    bool_locals = [l for l in range(b.argc + 1, len(b.rec.get("locals", []))) if b.local_ty(l) == "bool" and b.local_name(l)]
+    for k, (bi, t) in util.ordinal_keys(sites, lambda it: "add_succ_with_undo|expose"):
+        ok_any = False
+        for E in bool_locals:
+            sets_true = [db for (db, si, rec) in b.defs().get(E, []) if si != "t" and rec["rv"]["k"] == "Use" and (util.op_const(rec["rv"]["o"][0]) or {}).get("v") == "1"]
+            if not sets_true:
+                continue
+            e_false = cfg.cond_edges(b, atom_place=None, atom_call=None, want=False, seed_edges=())
+            # edges where E is false: switches directly on E
+            e_false = []
+            for sb, sw in b.switches():
+                pl = sw["op"].get("c") or sw["op"].get("m")
+                if pl and not pl["p"] and b.origin(pl["l"], ())[0] == E:
+                    zero = [tb for v, tb in sw["targets"] if v == "0"]
+                    e_false += [(sb, zero[0])] if zero else []
+            if not (e_false and b.edges_dominate(e_false, bi)):
+                continue
+            # E := true must not require another guard of the exposing store to be true
+            others = []
+            for D in bool_locals:
+                if D == E:
+                    continue
+                for sb, sw in b.switches():
+                    pl = sw["op"].get("c") or sw["op"].get("m")
+                    if pl and not pl["p"] and b.origin(pl["l"], ())[0] == D:
+                        e_true = [(sb, sw["otherwise"])]
+                        if b.edges_dominate(e_true, bi):
+                            others.append(e_true)
+            dependent = [db for db in sets_true for e_true in others if b.edges_dominate(e_true, db)]
+            ok_any = not dependent
+            ctx.ob("W4", k, ok_any, t["sp"], "the stop flag is set at the first surviving value, deletion or not" if ok_any else
+                   "the flag that stops further exposure is only set once a deletion was seen: a surviving value below a higher surviving one is exposed too, and one register shows up as two elements")
+            break
+        else:
+            ctx.ob("W4", k, False, t["sp"], "no stop flag guards the exposing store: every surviving value below a deleted one is exposed")
+
+
+def check_append_position(ctx, f):
+    RS = [p for p in f.fns if norm_fn(p) == "automerge::op_set2::op_set::insert::InsertQuery::resolve"]
+    if len(RS) != 1:
+        raise facts.AnchorMissing("InsertQuery::resolve")
+    b = cfg.body(f.fns[RS[0]])
+    ctx.analysed_fns.add(RS[0])
+    # the append position: QueryNth { pos: pos + 1, .. }
+    pos_local = None
+    for blk in b.blocks:
+        for st in blk["st"]:
+            rv = st["rv"]
+            if rv["k"] == "Agg" and (rv.get("adt") or "").endswith("QueryNth") and "pos" in rv.get("fields", []):
+                o = rv["o"][rv["fields"].index("pos")]
+                pl = o.get("c") or o.get("m")
+                d = b.single_def(pl["l"]) if pl and not pl["p"] else None
+                while d and d[1] != "t" and d[2]["rv"]["k"] == "Use":
+                    pl = d[2]["rv"]["o"][0].get("c") or d[2]["rv"]["o"][0].get("m")
+                    # `(tmp.0)` of a checked addition's (value, overflow) pair
+                    d = b.single_def(pl["l"]) if pl and (not pl["p"] or pl["p"] == [".0"]) else None
+                if d and d[1] != "t" and d[2]["rv"]["k"] == "Bin" and d[2]["rv"]["op"] in ("Add", "AddWithOverflow"):
+                    for o2 in d[2]["rv"]["o"]:
+                        p2 = o2.get("c") or o2.get("m")
+                        if p2 and not p2["p"]:
+                            pos_local = b.origin(p2["l"], ())[0]
+    if pos_local is None:
+        raise facts.AnchorMissing("append position (pos + 1) in InsertQuery::resolve")
+    nexts = [bi for bi, t in b.calls() if (norm_fn(t.get("fn")) or "").endswith("Iterator::next")]
+    stores = {db for (db, si, rec) in b.defs().get(pos_local, []) if si != "t" and any(b.can_reach(db, n) and b.can_reach(n, db) for n in nexts)}
+    ctx.floor("updates of the scan position inside the scan loop", len(stores), 1)
+    # every way from the loop's Some arm back to the loop head passes an update
+    ok = True
+    for n in nexts:
+        if not any(b.can_reach(db, n) and b.can_reach(n, db) for db in stores):
+            continue            # another loop (e.g. over the marks collected), which does not scan positions
+        t = b.blocks[n]["t"]
+        nxt = t.get("target")
+        sw = b.blocks[nxt]["t"] if nxt is not None else None
+        some = [tb for v, tb in (sw or {}).get("targets", []) if v == "1"] if sw and sw["k"] == "switch" else []
+        for tb in some:
+            reach = b.reachable(start=tb, removed_blocks=stores)
+            if n in reach:
+                ok = False
+    ctx.ob("W5", "InsertQuery::resolve|position advanced on every iteration", ok, b.rec["sp"], "no iteration leaves the position behind" if ok else
+           "an iteration of the scan (a skipped increment op) returns to the loop head without advancing the position: an append after an incremented counter is placed between the counter and its increments, and the saved document no longer loads")
